@@ -569,12 +569,26 @@ Proof.
     + exact Hsort. + exact HndL'. + exact Hfit'. + exact Hrest.
 Qed.
 
+(* operands that fit their modes pass the dimension check of the einsum backend (/repo 8b25fc6) *)
+Lemma mmd_e_fits_of_operand_fits (T : tensor F) (Ms : list (tensor F)) (modes : option (list nat)) (skip : option nat) (tr : bool) :
+  Forall (operand_fits tr (shape T)) (filter (fun x => negb (is_skip skip (snd x))) (sort_by_mode (zip3 Ms modes))) ->
+  mmd_e_fits (shape T) tr skip (sort_by_mode (zip3 Ms modes)) = true.
+Proof.
+  intros Hfit. unfold mmd_e_fits. apply forallb_forall. intros x Hx.
+  destruct (is_skip skip (snd x)) eqn:Es; [reflexivity|]. cbn [orb].
+  rewrite Forall_forall in Hfit. destruct (Hfit x) as [Hm [WX Hsh]]; [apply filter_In; split; [exact Hx | now rewrite Es]|].
+  unfold fit_one. apply Nat.ltb_lt in Hm. rewrite Hm. destruct Hsh as [Hs | [a [b [Hs [Hab _]]]]]; unfold ndim; rewrite Hs; cbn [length nth].
+  - apply Nat.eqb_refl.
+  - apply Nat.eqb_eq. destruct tr; exact Hab.
+Qed.
+
 Theorem multi_mode_dot_backends_agree (T : tensor F) (Ms : list (tensor F)) (modes : option (list nat)) (skip : option nat) (tr : bool) :
   let L := filter (fun x => negb (is_skip skip (snd x))) (sort_by_mode (zip3 Ms modes)) in
   wf T -> 0 < prod (shape T) -> NoDup (map (@t_mode F) L) -> Forall (operand_fits tr (shape T)) L ->
   multi_mode_dot Op T Ms modes skip tr = multi_mode_dot_e Op T Ms modes skip tr.
 Proof.
   intros L W Hpos Hnd Hfit. unfold multi_mode_dot, multi_mode_dot_e. cbv zeta.
+  rewrite (mmd_e_fits_of_operand_fits T Ms modes skip tr Hfit).
   rewrite (mmd_loop_filter_skip_gen Op), mmd_e_loop_filter_skip. fold L.
   set (order := ndim T). set (st0 := mkS [] [] (seq 0 order) (order + 1) 0).
   rewrite <- (einsum_id T W) at 1. fold order.
